@@ -76,3 +76,18 @@ Print Assumptions C16_concurrent_requests_linearize.
 Example atomic_kinds : forall sk al body id m fmt nl,
   forallb atomic_op [OCreateText sk al body; OCreateMsg id m; OBadJSON; OGet id; OList; OContents id fmt nl; OValidate id; ODelete id] = true.
 Proof. reflexivity. Qed.
+
+(* ... in an order consistent with real time. Requests arrive (EStart) and take their repository step
+   (EStep) in any interleaving. After any prefix es1 of the events and after any continuation es2: the
+   store is the sequential run of the repository-call order (rt_inv: with every finished request's response
+   being the one that run gives it); the order only grows at its end; and a request that has not yet
+   arrived is not in it. Hence a request that finished before another arrived precedes it in the final order. *)
+Theorem C16_linearization_respects_real_time : forall st0 ops es1 es2,
+  forallb atomic_op ops = true ->
+  let '(st1, ts1, lin1) := rt_run es1 st0 (map RNotStarted ops) [] in
+  let '(st2, ts2, lin2) := rt_run es2 st1 ts1 lin1 in
+  rt_inv st0 ops st1 ts1 lin1 /\ rt_inv st0 ops st2 ts2 lin2 /\
+  (exists later, lin2 = lin1 ++ later) /\
+  (forall j, (forall t, nth_error ts1 j = Some t -> rt_started t = false) -> ~ In j lin1).
+Proof. exact concurrent_requests_linearize_in_real_time. Qed.
+Print Assumptions C16_linearization_respects_real_time.
